@@ -342,53 +342,109 @@ def _proc_state(pid):
         return None
 
 
+def _blocked_for_good(pid):
+    """True iff the process sleeps in wait4(), or in read() on a pipe that holds no data."""
+    try:
+        with open(f"/proc/{pid}/stat") as f:
+            state = f.read().rsplit(")", 1)[1].split()[0]
+        if state == "Z":
+            return None  # gone: neither blocked nor running
+        if state != "S":
+            return False
+        with open(f"/proc/{pid}/syscall") as f:
+            sc = f.read().split()
+        if sc[0] == "61":
+            return True
+        if sc[0] != "0":
+            return False
+        fd = int(sc[1], 16)
+        import fcntl
+        import struct
+        import termios
+
+        target = os.readlink(f"/proc/{pid}/fd/{fd}")
+        if not target.startswith("pipe:"):
+            return False
+        h = os.open(f"/proc/{pid}/fd/{fd}", os.O_RDONLY | os.O_NONBLOCK)
+        try:
+            n = struct.unpack("i", fcntl.ioctl(h, termios.FIONREAD, b"\0\0\0\0"))[0]
+        finally:
+            os.close(h)
+        return n == 0
+    except (OSError, ValueError, IndexError):
+        return None
+
+
+def _deadlocked(pid):
+    """Logical deadlock of the harness and everything below it: every live process is asleep in
+    wait4() or in read() on an EMPTY pipe, and at least one of them besides the harness is alive
+    (otherwise reads return EOF).  Independent of machine speed."""
+    me = _blocked_for_good(pid)
+    if me is not True:
+        return False
+    kids = [_blocked_for_good(k) for k in _descendants(pid)]
+    live = [k for k in kids if k is not None]
+    return bool(live) and all(live)
+
+
+def _armed(tracefile):
+    armed = False
+    try:
+        for x in open(tracefile):
+            if '"timer"' in x:
+                armed = json.loads(x)["armed"]
+    except (OSError, ValueError):
+        pass
+    return armed
+
+
 def wait_or_hang(pid, tracefile, wall):
-    """Wait for the harness process.  A hang is declared only when the harness AND its daemon are
-    both asleep in a blocking syscall and neither has used any CPU for 2 s (so a slow, overloaded
-    machine is never mistaken for a deadlock); `wall` is only a last-resort machinery limit."""
+    """Wait for the harness process.  A hang is a logical deadlock (see _deadlocked) observed on
+    three polls in a row; if a (virtual) responsiveness timer is armed at that point it is delivered
+    instead.  `wall` is only a last-resort machinery limit (exit 2), never a verdict."""
     t0 = time.time()
-    quiet_since, last = None, None
+    streak = 0
     while True:
         r, _ = os.waitpid(pid, os.WNOHANG)
         if r:
             return False
-        now = time.time()
-        dpid, armed = None, False
-        try:
-            for x in open(tracefile):
-                if '"dpid"' in x:
-                    dpid = json.loads(x)["pid"]
-                elif '"timer"' in x:
-                    armed = json.loads(x)["armed"]
-        except (OSError, ValueError):
-            pass
-        hs = _proc_state(pid)
-        ds = _proc_state(dpid) if dpid else None
-        # blocked = sleeping inside read(2) on a pipe / wait4(2) / poll, not merely descheduled
-        asleep = (hs is not None and hs[0] == "S" and hs[2] in BLOCKING_SYSCALLS
-                  and (ds is None or ds[0] == "Z" or (ds[0] == "S" and ds[2] in BLOCKING_SYSCALLS)))
-        snap = (hs[1] if hs else 0, ds[1] if ds else 0, os.path.getsize(tracefile))
-        if asleep and snap == last and dpid is not None:
-            quiet_since = quiet_since or now
-            if now - quiet_since > 3.0 and armed:
-                # the responsiveness probe would time out here: let it
-                os.kill(pid, signal.SIGALRM)
-                quiet_since = None
-            elif now - quiet_since > 3.0:
-                os.kill(pid, signal.SIGKILL)
-                os.waitpid(pid, 0)
-                return True
+        if _deadlocked(pid):
+            streak += 1
+            if streak >= 3:
+                if _armed(tracefile):
+                    os.kill(pid, signal.SIGALRM)
+                    streak = 0
+                    time.sleep(0.2)
+                else:
+                    for k in _descendants(pid):
+                        try:
+                            os.kill(k, signal.SIGKILL)
+                        except OSError:
+                            pass
+                    os.kill(pid, signal.SIGKILL)
+                    os.waitpid(pid, 0)
+                    return True
         else:
-            quiet_since = None
-        last = snap
-        if now - t0 > wall:
+            streak = 0
+        if time.time() - t0 > wall:
+            diag = [(x, _proc_state(x), _blocked_for_good(x)) for x in [pid] + _descendants(pid)]
+            try:
+                diag.append(open(tracefile).read()[-600:])
+            except OSError:
+                pass
+            wall = f"{wall} diag={diag}"
+            for k in _descendants(pid):
+                try:
+                    os.kill(k, signal.SIGKILL)
+                except OSError:
+                    pass
             os.kill(pid, signal.SIGKILL)
             os.waitpid(pid, 0)
-            raise tlc.MachineryError(f"replay harness exceeded {wall}s without being provably blocked")
-        time.sleep(0.05)
+            raise tlc.MachineryError(f"replay harness exceeded {wall}s without being deadlocked")
+        time.sleep(0.1)
 
 
-def replay_session(hist, lit, scratch, idx, wall=120.0):
+def replay_session(hist, lit, scratch, idx, wall=300.0):
     """Run one simulated session in a forked harness; returns the raw trace records."""
     tracefile = os.path.join(scratch, f"trace{idx}.ndjson")
     open(tracefile, "w").close()
@@ -397,6 +453,10 @@ def replay_session(hist, lit, scratch, idx, wall=120.0):
     pid = os.fork()
     if pid == 0:  # harness child
         try:
+            if os.environ.get("VERIF_C35_DEBUG"):
+                import faulthandler
+                faulthandler.enable(open(tracefile + ".fault", "w"))
+                faulthandler.dump_traceback_later(5, file=open(tracefile + ".fault", "w"))
             os.environ["PKGCORE_VERIF_TRACE"] = tracefile
             from pkgcore.ebuild import processor
 
@@ -492,50 +552,7 @@ def to_events(tid, recs, daemon):
 
 # --------------------------------------------------------------------------------------------
 def wait_or_hang_real(pid, wall, tracefile=None):
-    """Real daemon: hang = harness asleep with no CPU use and no live CPU use in its bash children for 4 s."""
-    t0 = time.time()
-    quiet_since, last = None, None
-    while True:
-        r, _ = os.waitpid(pid, os.WNOHANG)
-        if r:
-            return False
-        now = time.time()
-        hs = _proc_state(pid)
-        ks = [_proc_state(k) for k in _descendants(pid)]
-        ks = [k for k in ks if k]
-        asleep = (hs is not None and hs[0] == "S" and hs[2] in BLOCKING_SYSCALLS
-                  and all(k[0] == "Z" or (k[0] == "S" and k[2] in BLOCKING_SYSCALLS) for k in ks))
-        snap = (hs[1] if hs else 0, tuple(k[1] for k in ks))
-        if asleep and snap == last:
-            quiet_since = quiet_since or now
-            armed = False
-            if tracefile:
-                try:
-                    for x in open(tracefile):
-                        if '"timer"' in x:
-                            armed = json.loads(x)["armed"]
-                except (OSError, ValueError):
-                    pass
-            if now - quiet_since > 6.0 and armed:
-                os.kill(pid, signal.SIGALRM)
-                quiet_since = None
-            elif now - quiet_since > 6.0:
-                for k in _descendants(pid):
-                    try:
-                        os.kill(k, signal.SIGKILL)
-                    except OSError:
-                        pass
-                os.kill(pid, signal.SIGKILL)
-                os.waitpid(pid, 0)
-                return True
-        else:
-            quiet_since = None
-        last = snap
-        if now - t0 > wall:
-            os.kill(pid, signal.SIGKILL)
-            os.waitpid(pid, 0)
-            raise tlc.MachineryError("real-daemon session exceeded the wall clock limit without being provably blocked")
-        time.sleep(0.1)
+    return wait_or_hang(pid, tracefile, wall)
 
 
 def real_sessions(scratch, n_variants):
@@ -693,6 +710,13 @@ def H(who, t, kind="-", need=0, have=0, out=(), gone=False):
 
 
 DIRECTED = [
+    # batched asynchronous expectations are drained by the next synchronous one
+    [H("py", "req", "preload_async"), H("d", "read", out=[("preload_eclass", "succeeded")]), H("py", "req", "is_responsive"),
+     H("d", "read", out=[("yep!", "-")]), H("py", "req", "clear_preloaded"), H("d", "read", out=[("yep!", "-")]),
+     H("d", "read", out=[("clear_preloaded_eclasses", "succeeded")])],
+    [H("py", "req", "preload_async"), H("py", "req", "preload_async"), H("d", "read", out=[("preload_eclass", "succeeded")]),
+     H("d", "read", out=[("preload_eclass", "succeeded")]), H("py", "req", "set_metadata_path", 1, 1),
+     H("d", "read", out=[("metadata_path_received", "-")])],
     # clear_preloaded_eclasses answered by the daemon: Python must accept the reply and keep the daemon
     [H("py", "req", "clear_preloaded"), H("d", "read", out=[("yep!", "-")]), H("d", "read", out=[("clear_preloaded_eclasses", "succeeded")]),
      H("py", "req", "is_responsive"), H("d", "read", out=[("yep!", "-")])],
